@@ -41,7 +41,7 @@ def check(ctx):
     drv = build_harness(ctx)
     trace = os.path.join(ctx.scratch, "diff.ndjson")
     n = 1500 if quick else 30000
-    run_driver(ctx, drv, ["diff", "-seed", str(ctx.seed), "-n", str(n), "-big", "40" if quick else "25", "-out", trace])
+    run_driver(ctx, drv, ["diff", "-seed", str(ctx.seed), "-n", str(n), "-big", ("8" if prop == "C15" else "40") if quick else ("6" if prop == "C15" else "25"), "-out", trace])
     files, chunks, start, reports = validate_parallel(ctx, "TraceDiff.tla", "TraceDiff.cfg", trace, 4 if quick else 14,
                                                       is_start=lambda ln: True, ident=lambda ln: json.loads(ln)["id"])
     stat, viols = {}, []
